@@ -233,12 +233,12 @@ pub fn scenarios(thorough: bool) -> Vec<Scenario> {
     v.push(pair_scenario("pair-arrays", if thorough { &[1, 2, 3, 4, 6, 9] } else { &[2, 3, 4, 9] }, if thorough { 6 } else { 5 },
         &[Op::Resolve(0, 0, 0), Op::Resolve(1, 0, 1), Op::Resolve(1, 1, 0), Op::Unstage(0)]));
     v.push(pair_conflict_scenario("pair-conflict-edit-vs-delete", 4, 3, &[8, 9, 2], if thorough { 5 } else { 4 },
-        &[Op::Resolve(1, 0, 0), Op::Resolve(1, 0, 1), Op::Resolve(1, 1, 0), Op::Resolve(0, 0, 1), Op::Resolve(1, 1, 1)]));
+        &[Op::Resolve(1, 0, 0), Op::Resolve(1, 0, 1), Op::Resolve(1, 1, 0), Op::Resolve(0, 0, 1), Op::Resolve(1, 1, 1), Op::Unstage(1), Op::Unstage(0)]));
     v.push(trio_scenario("trio", if thorough { 7 } else { 6 }));
     v.push(long_chain_scenario("pair-long-chain", if thorough { 4 } else { 3 }, &[Op::Resolve(1, 0, 0), Op::Resolve(0, 0, 1)]));
-    v.push(tie_scenario("pair-tie", if thorough { 4 } else { 3 }, &[Op::Resolve(1, 0, 0), Op::Resolve(1, 0, 1)]));
-    v.push(three_leaves_scenario("trio-three-leaves", if thorough { 4 } else { 3 }, &[]));
-    v.push(pair_conflict_scenario("pair-edit-hi-vs-delete", 15, 3, &[9], if thorough { 4 } else { 3 }, &[Op::Resolve(1, 0, 0), Op::Resolve(1, 1, 1)]));
+    v.push(tie_scenario("pair-tie", if thorough { 4 } else { 3 }, &[Op::Resolve(1, 0, 0), Op::Resolve(1, 0, 1), Op::Unstage(1)]));
+    v.push(three_leaves_scenario("trio-three-leaves", if thorough { 4 } else { 3 }, &[Op::Unstage(0)]));
+    v.push(pair_conflict_scenario("pair-edit-hi-vs-delete", 15, 3, &[9], if thorough { 4 } else { 3 }, &[Op::Resolve(1, 0, 0), Op::Resolve(1, 1, 1), Op::Unstage(1)]));
     v.extend(cross_scenarios(thorough));
     v
 }
